@@ -24,10 +24,10 @@ def keyText (count : Nat) (g : Group) (k : Bytes) : String :=
   else "?"
 
 def valText (count : Nat) (g : Group) (pre : Option Group) : Val → String
-  | .grp x => if x = stamped count g then "data" else "?"
+  | .grp x => if x = stamped count g then "‹json.Marshal(group)›#0" else "?"
   | .ref id =>
     if id = g.id then "group.Id"
-    else if some id = pre.map (·.id) then "preGroup.Id" else "?"
+    else if some id = pre.map (·.id) then "‹chain.getGroupById(group.Header.PreGroup)›.Id" else "?"
   | .cnt _ => "utility.UInt64ToByte(chain.count)"
 
 def writeText (count : Nat) (g : Group) (pre : Option Group) : Write → String
@@ -63,7 +63,7 @@ def modelRemoveEffects (c : Chain) (g pre : Group) : List String :=
   txt.drop 3
 
 def modelRemoveMemory (c : Chain) (g pre : Group) : List String :=
-  (if (remove c g).2.last = pre then ["chain.lastGroup = preGroup"] else ["?"]) ++
+  (if (remove c g).2.last = pre then ["chain.lastGroup = ‹chain.getGroupById(group.Header.PreGroup)›"] else ["?"]) ++
   (if g.id ∉ (remove c g).2.mirror then ["mysql.DeleteGroup group.Id"] else ["?"])
 
 /-- A generic witness state: five groups on chain, last group `wG` with predecessor `wP`. -/
@@ -82,15 +82,16 @@ theorem save_effects_match :
 theorem remove_effects_match :
     removeEffects = modelRemoveEffects wC wG wP ∧ removeMemory = modelRemoveMemory wC wG wP := by decide
 
-/-- `AddGroup`'s guards, in the order `addCheck` evaluates them: already stored → exists;
+/-- (Locals are shown as ‹defining expression›#result-index; a name defined twice shows its first
+    definition — `exist` below.) `AddGroup`'s guards, in the order `addCheck` evaluates them: already stored → exists;
     consensus check; parent stored; predecessor = last; then `save`. -/
 theorem add_guards_match : addGuards =
     ["nil == group",
-     "exist, _ := chain.groups.Has(group.Id); exist",
-     "ok, err := consensusHelper.CheckGroup(group)",
-     "!ok",
-     "exist, _ := chain.groups.Has(group.Header.Parent)",
-     "!exist",
+     "‹chain.groups.Has(group.Id)›#0, _ := chain.groups.Has(group.Id); ‹chain.groups.Has(group.Id)›#0",
+     "‹consensusHelper.CheckGroup(group)›#0, ‹consensusHelper.CheckGroup(group)›#1 := consensusHelper.CheckGroup(group)",
+     "!‹consensusHelper.CheckGroup(group)›#0",
+     "‹chain.groups.Has(group.Id)›#0, _ := chain.groups.Has(group.Header.Parent)",
+     "!‹chain.groups.Has(group.Id)›#0",
      "!bytes.Equal(chain.lastGroup.Id, group.Header.PreGroup)",
      "return chain.save(group)"] := by decide
 
@@ -102,7 +103,7 @@ theorem only_known_writers : stateWriters =
      "*groupChain.remove: Put",
      "*groupChain.remove: Put",
      "*groupChain.remove: chain.count--",
-     "*groupChain.remove: chain.lastGroup = preGroup",
+     "*groupChain.remove: chain.lastGroup = ‹chain.getGroupById(group.Header.PreGroup)›",
      "*groupChain.save: Put",
      "*groupChain.save: Put",
      "*groupChain.save: Put",
@@ -110,8 +111,8 @@ theorem only_known_writers : stateWriters =
      "*groupChain.save: chain.count++",
      "*groupChain.save: chain.lastGroup = group",
      "*groupChain.save: group.GroupHeight = chain.count",
-     "initGroupChain: chain.count = utility.ByteToUInt64(count)",
-     "initGroupChain: chain.lastGroup = lastGroup"] := by decide
+     "initGroupChain: ‹&groupChain{}›.count = utility.ByteToUInt64(‹chain.groups.Get([]byte(groupCountKey))›#0)",
+     "initGroupChain: ‹&groupChain{}›.lastGroup = lastGroup"] := by decide
 
 /-- `save` is called by start-up (genesis groups) and `AddGroup` only; `remove` by the fork
     switch (`removeFromCommonAncestor`) only — the operations `Props/C19.lean` covers. -/
